@@ -922,15 +922,26 @@ func lenEmptyEdge(b *ssa.BasicBlock) (lc *ssa.Call, empty, nonEmpty *ssa.BasicBl
 	if !isIf {
 		return
 	}
-	cond := iff.Cond
-	t, f := b.Succs[0], b.Succs[1]
+	c, emptyWhenTrue, ok2 := lenEmptyCond(iff.Cond)
+	if !ok2 {
+		return
+	}
+	if emptyWhenTrue {
+		return c, b.Succs[0], b.Succs[1], true
+	}
+	return c, b.Succs[1], b.Succs[0], true
+}
+
+// lenEmptyCond: cond decides whether len(x) is zero, in any spelling; emptyWhenTrue tells which outcome means "empty".
+func lenEmptyCond(cond ssa.Value) (lc *ssa.Call, emptyWhenTrue, ok bool) {
+	neg := false
 	for i := 0; i < 4; i++ {
 		u, isU := cond.(*ssa.UnOp)
 		if !isU || u.Op != token.NOT {
 			break
 		}
 		cond = u.X
-		t, f = f, t
+		neg = !neg
 	}
 	bo, isB := cond.(*ssa.BinOp)
 	if !isB {
@@ -967,9 +978,9 @@ func lenEmptyEdge(b *ssa.BasicBlock) (lc *ssa.Call, empty, nonEmpty *ssa.BasicBl
 	}
 	switch {
 	case op == token.EQL && k == 0, op == token.LSS && k == 1, op == token.LEQ && k == 0:
-		return x.(*ssa.Call), t, f, true
+		return x.(*ssa.Call), !neg, true
 	case op == token.NEQ && k == 0, op == token.GTR && k == 0, op == token.GEQ && k == 1:
-		return x.(*ssa.Call), f, t, true
+		return x.(*ssa.Call), neg, true
 	}
 	return
 }
